@@ -468,7 +468,7 @@ func (g *gen) vspecFor(p position) vspec {
 
 func runValues(f lib.Flags, res *lib.Result, drv *lib.Driver, ms *monitors) {
 	tie := res.Tie("value-comparers", "K1",
-		"random (value comparer, field, x, y): field of every kind (ints, floats, bool, string, bytes, enum, message, Timestamp, Duration, list element, map value); floats from small multiples of 1/8 plus NaN/±Inf/-0, y = x nudged by a recorded step; Timestamp/Duration pairs nudged by 1ns..1s steps, typed-nil messages, durations saturating AsDuration; tolerances just below/at/above the introduced difference; comparer = atom | ValueAnd | ValueOr (of random kinds, or 2-3 comparers of the position's own kind with different tolerances). Each case on (x,y),(y,x),(x,x). Non-trivial: distinct cases")
+		"random (value comparer, field, x, y): field of every kind (ints, floats, bool, string, bytes, enum, message, Timestamp, Duration, list element, map value - also the repeated Timestamp / Duration / wrapper / recursive fields and the Timestamp / Duration map values of the dynamic type verif.c16.Times); floats from small multiples of 1/8 plus NaN/±Inf/-0, y = x nudged by a recorded step; Timestamp/Duration pairs nudged by 1ns..1s steps, typed-nil messages, durations saturating AsDuration; tolerances just below/at/above the introduced difference; comparer = atom | ValueAnd | ValueOr (of random kinds, or 2-3 comparers of the position's own kind with different tolerances). Each case on (x,y),(y,x),(x,x). Non-trivial: distinct cases")
 	g := &gen{r: lib.NewRand(f.Seed + 7919)}
 	n := f.N(8000, 150000)
 	const batch = 1000
